@@ -170,6 +170,8 @@ def shim_effects(paths, recs, before):
             if 'T' in fl:
                 kinds.append('truncate' if (p in before or 'create' not in kinds) else 'create')
             for k in dict.fromkeys(kinds):
+                if k == 'create' and p in paths.parity:
+                    continue         # absent parity file == empty parity file (parity_create opens with O_CREAT)
                 eff.append((paths.classify(p), k, r))
             continue
         if c in ('pwrite', 'write'):
@@ -464,14 +466,18 @@ def presummary(arr, paths, cmd, opts):
     d['_scan'] = scan
     d['disks'] = [(c['equal'], c['move'], c['restore'], c['remove'], c['change'], c['zero']) for c in scan]
     d['scan_need_write'] = any(c['need_write'] for c in scan)
-    d['used'] = used_blocks(scan)
+    # -R converts every BLK block to REP while loading (state.c:2037): nothing counts as used any more
+    d['used'] = 0 if ('-R' in opts or '--force-realloc' in opts) else used_blocks(scan)
     pend = any(c['remove'] or c['change'] or c['insert'] for c in scan)
     allblk = bool(loaded) and all(s == 'BLK' for dd in loaded['disks'].values() for f in dd['files'] for s, _, _ in f['blocks']) \
         and not any(dd['deleted'] for dd in loaded['disks'].values())
     cur_blockmax = loaded['blockmax'] if loaded else 0
     psz = [sum(os.path.getsize(f) for f in fs if os.path.exists(f)) for fs in arr.parity_files]
     d['parity_blocks'] = [s // bs for s in psz]
-    d['parity_access'] = [True] * arr.np
+    # parity.c:228-236 / 712-720: with no recorded split size ('P' record) a size that is not a multiple of the block
+    # size makes parity_create / parity_open fail
+    norec = not loaded or all(any(x['size'] is None for x in lv['splits']) for lv in loaded['levels'].values())
+    d['parity_access'] = [not (norec and s % bs) for s in psz]
     # blockmax after the scan: exact when nothing is pending, else bounded (enough for the -S test used by the scenarios)
     d['blockmax'] = cur_blockmax if not pend else None
     if d['blockmax'] is None:
@@ -481,12 +487,27 @@ def presummary(arr, paths, cmd, opts):
     else:
         d['parity_resize'] = None
         unknown.append('parity_resize')
-    ffull = '-F' in opts
+    # parity_chsize's is_modified: resulting size vs the size recorded in the content file; single-file parity is
+    # recorded with a 'P' record that carries no size, so it always counts as modified
+    recsz = []
+    for l in range(arr.np):
+        lv = (loaded or {}).get('levels', {}).get(l)
+        sp = lv['splits'] if lv else []
+        recsz.append(None if (not sp or any(x['size'] is None for x in sp)) else sum(x['size'] for x in sp))
+    if all(r is None for r in recsz):
+        d['parity_modified'] = [True] * arr.np
+    elif not pend:
+        d['parity_modified'] = [r is None or r != cur_blockmax * bs for r in recsz]
+    else:
+        d['parity_modified'] = None
+        unknown.append('parity_modified')
+    ffull = '-F' in opts or '-R' in opts
+    anydata = any(f['size'] > 0 for c in scan for f in c['kept']) or any(c['new_nonempty'] for c in scan)
     if not pend and allblk and not ffull:
         d['sync_work'] = False
-    elif any(c['new_nonempty'] for c in scan) and '-S' not in opts and '-B' not in opts:
-        d['sync_work'] = True
-    elif ffull and cur_blockmax > 0 and not pend and '-S' not in opts and '-B' not in opts:
+    elif any(c['new_nonempty'] for c in scan) and not any(c['remove'] or c['change'] for c in scan) and '-S' not in opts and '-B' not in opts:
+        d['sync_work'] = True          # pure additions of fresh data: parity must be written
+    elif ffull and anydata and '-S' not in opts and '-B' not in opts:
         d['sync_work'] = True
     else:
         d['sync_work'] = None
@@ -534,7 +555,7 @@ def pre_tokens(d, arr):
         t += [str(e), str(m), str(r), str(rm), str(ch), b(z)]
     t += [b(d['scan_need_write']), str(d['blockmax']), str(d['used'])]
     t += [''.join(map(b, d['parity_access'])) or '-', ','.join(map(str, d['parity_blocks'])) or '-',
-          ''.join(map(b, d['parity_resize'])) or '-']
+          ''.join(map(b, d['parity_resize'])) or '-', ''.join(map(b, d['parity_modified'])) or '-']
     t += [b(d.get('prehash_fail', False)), b(d['sync_work']), b(d.get('sync_errors', False)), b(d['array_empty']),
           str(d.get('scrub_stripes', 0)), b(d.get('scrub_errors', False)), b(d.get('check_errors', False)), b(d['diff'])]
     items = d.get('fix_items', [])
@@ -561,8 +582,8 @@ def completions(d):
     for u in unk:
         if u == 'sync_work':
             spaces.append([('sync_work', False), ('sync_work', True)])
-        elif u == 'parity_resize':
-            spaces.append([('parity_resize', list(c)) for c in itertools.product([False, True], repeat=np_)])
+        elif u in ('parity_resize', 'parity_modified'):
+            spaces.append([(u, list(c)) for c in itertools.product([False, True], repeat=np_)])
         elif u == 'blockmax':
             spaces.append([('blockmax', d.get('_blockmax_guess', 10 ** 6))])
         elif u == 'scrub_stripes':
